@@ -125,6 +125,8 @@ def plan_seq(pid, tier, seed, ncpu):
             # the release profile has no debug_assert: counter drift shows as drift, not as a panic
             js += con_jobs(bindirs["rel"], workdir, known, pid, "baton", seed + 2, 2, programs=scale(tier, 1600, 40000), schedules=scale(tier, 10, 20), variant="rel")
             js += con_jobs(bindirs["rel"], workdir, known, pid, "stress", seed + 2, 2, programs=scale(tier, 300, 8000), schedules=scale(tier, 5, 10), variant="rel")
+        if pid == "C07":
+            js += con_jobs(bindirs["dbg"], workdir, known, pid, "chase", seed, 2, programs=scale(tier, 200, 6000), schedules=3)
         if pid in ("C03", "C07", "C10"):
             js += con_jobs(bindirs["dbg"], workdir, known, pid, "baton", seed, 4, programs=scale(tier, 1600, 40000), schedules=scale(tier, 10, 20))
             js += con_jobs(bindirs["dbg"], workdir, known, pid, "stress", seed, 2, programs=scale(tier, 300, 8000), schedules=scale(tier, 5, 10))
@@ -214,6 +216,8 @@ def plan_c02(pid, tier, seed, ncpu):
     def jobs(bindirs, workdir, known):
         js = con_jobs(bindirs["dbg"], workdir, known, pid, "baton", seed, max(1, ncpu * 3 // 4), programs=progs, schedules=scale(tier, 20, 50))
         js += con_jobs(bindirs["dbg"], workdir, known, pid, "stress", seed, max(1, ncpu // 4), programs=stress, schedules=scale(tier, 10, 20))
+        # full-speed chase (no injected delays): windows inside get/insert that no switch point may expose
+        js += con_jobs(bindirs["dbg"], workdir, known, pid, "chase", seed, 2, programs=scale(tier, 300, 8000), schedules=3)
         # a one-thread history is an interleaving too: un-synced reads/writes, idle deadlines, invalidations
         for prof in ("invalidate", "tti", "general"):
             js += seq_jobs(bindirs["dbg"], workdir, known, pid, prof, scale(tier, 40000, 1000000), 50, seed, 2, prefix="c02seq")
